@@ -1574,6 +1574,20 @@ func (r *Raft) InstallSnapshot(
 	}
 	defer r.releaseStateMachine()
 
+	// Replace the log before the lock is released: entries that arrive while the state machine
+	// is being restored follow the snapshot and are acknowledged to the leader, so they must not
+	// be thrown away together with the old log afterwards.
+	r.lastApplied = request.LastIncludedIndex
+	r.commitIndex = request.LastIncludedIndex
+	r.logger.Warnf(
+		"discarding log: lastIndex = %d, lastTerm = %d",
+		request.LastIncludedIndex,
+		request.LastIncludedTerm,
+	)
+	if err := r.log.DiscardEntries(request.LastIncludedIndex, request.LastIncludedTerm); err != nil {
+		r.logger.Fatalf("failed to discard log entries: error = %v", err)
+	}
+
 	// Restore the state machine with the snapshot.
 	// This could take a while so it's probably best that the lock is released.
 	r.mu.Unlock()
@@ -1592,19 +1606,6 @@ func (r *Raft) InstallSnapshot(
 
 	if r.state == Shutdown {
 		return nil
-	}
-
-	r.lastApplied = request.LastIncludedIndex
-	r.commitIndex = request.LastIncludedIndex
-
-	// Discard the entire log.
-	r.logger.Warnf(
-		"discarding log: lastIndex = %d, lastTerm = %d",
-		request.LastIncludedIndex,
-		request.LastIncludedTerm,
-	)
-	if err := r.log.DiscardEntries(request.LastIncludedIndex, request.LastIncludedTerm); err != nil {
-		r.logger.Fatalf("failed to discard log entries: error = %v", err)
 	}
 
 	// Update the configuration.
